@@ -634,10 +634,14 @@ func (t *streamableHTTPClientTransport) establishGetSSE(parentCtx context.Contex
 
 	// Release lock and establish connection in a separate goroutine
 	go func() {
-		// Reset connection state when function exits
+		// Reset connection state when function exits, but only if this stream still owns the slot:
+		// a newer stream may have replaced (and cancelled) this one, and the slot is then the newer
+		// stream's — marking it inactive would make close() skip cancelling that stream.
 		defer func() {
 			t.getSSEConn.mutex.Lock()
-			t.getSSEConn.active = false
+			if t.getSSEConn.ctx == ctx {
+				t.getSSEConn.active = false
+			}
 			t.getSSEConn.mutex.Unlock()
 		}()
 
